@@ -5,7 +5,6 @@ package main
 import (
 	"fmt"
 	"go/constant"
-	"go/token"
 	"go/types"
 	"strings"
 
@@ -237,28 +236,7 @@ func runC15(c *Ctx, r *Report) {
 
 // checkByteIsAny: returns true exactly on equality with an element.
 func checkByteIsAny(c *Ctx, r *Report, fn *ssa.Function) {
-	ok := false
-	allInstrs(fn, func(in ssa.Instruction) {
-		if bo, isBo := in.(*ssa.BinOp); isBo && bo.Op == token.EQL {
-			if bo.X == ssa.Value(fn.Params[0]) || bo.Y == ssa.Value(fn.Params[0]) {
-				ok = true
-			}
-		}
-	})
-	nTrue, nFalse := 0, 0
-	allInstrs(fn, func(in ssa.Instruction) {
-		if ret, isRet := in.(*ssa.Return); isRet && len(ret.Results) == 1 {
-			if b, isC := constBool(ret.Results[0]); isC {
-				if b {
-					nTrue++
-				} else {
-					nFalse++
-				}
-			}
-		}
-	})
-	r.Check(ok && nTrue == 1 && nFalse == 1, "C15/feed-all", "util.ByteIsAny is set membership", c.Pos(fn.Pos()), "true exactly on equality with an element",
-		"util.ByteIsAny is no longer recognisably membership of the byte in the list (the automaton cells rely on it)")
+	checkExistsHelper(c, r, "C15/feed-all", fn, "eq(elem,param)", "set membership")
 }
 
 func checkTelnetFeedAll(c *Ctx, r *Report, handler *ssa.Function) {
